@@ -113,11 +113,14 @@ def one_run(tbl, sched, J=1, seed=0, continue_after_read=False, minimize=False, 
                                             "phase": str(idx[3]), "count": int(row["count"])})
             ev["sample_info"] = {k: int(v) for k, v in summ.sample_info.items()}
             idata = to_arviz_inference_data(res, include_warmup=any(t != 4 for t, _, _ in sched))
-            ev["dig_arviz_post"] = _dig({k: idata.posterior[k].values for k in post})
+            # (a position the conversion leaves out is reported as an empty array: the digests then differ)
+            missing = np.zeros(0, np.float32)
+            ev["dig_arviz_post"] = _dig({k: idata.posterior[k].values if k in idata.posterior else missing for k in post})
             if any(t != 4 for t, _, _ in sched):
                 warm = res.positions.combine_filtered(lambda ec: ec.type.is_warmup(ec.type)).unwrap()
                 ev["dig_warm"] = _dig(warm)
-                ev["dig_arviz_warm"] = _dig({k: idata.warmup_posterior[k].values for k in warm})
+                ev["dig_arviz_warm"] = _dig({k: idata.warmup_posterior[k].values if k in idata.warmup_posterior else missing
+                                             for k in warm})
         if local_class:
             ev["dig_pickle"] = dict(ev["dig_before"])
         else:
